@@ -954,6 +954,17 @@ def _tuple_assigns(tree):
                 i += 1
 
 
+import re as _re
+
+_INLINED = _re.compile(r'__i\d+$')
+ALIAS_ALL = os.environ.get('PSA_ALIAS_ALL', '1') == '1'
+
+
+def _is_inlined_name(nm):
+    """Names the inliner introduced end in __i<N>."""
+    return bool(_INLINED.search(nm))
+
+
 def _single_aliases(tree):
     """Inside a function, ``b = a`` between two locals that are each bound
     exactly once (a may be a parameter) makes b another name for a: reads
@@ -989,8 +1000,32 @@ def _single_aliases(tree):
                 for al in n.names:
                     nm = (al.asname or al.name).split('.')[0]
                     stores[nm] = stores.get(nm, 0) + 1
+        # a name read (textually) before its one binding carries a value
+        # from an earlier loop iteration: not an alias
+        pos = {}
+
+        def _dfs(node, pos=pos):
+            pos[id(node)] = len(pos)
+            for ch in ast.iter_child_nodes(node):
+                _dfs(ch)
+        _dfs(fn)
+        first_load = {}
+        bind_at = {}
+        for n in ast.walk(fn):
+            if isinstance(n, ast.Name):
+                if isinstance(n.ctx, ast.Load):
+                    first_load[n.id] = min(first_load.get(n.id, 1 << 30),
+                                           pos[id(n)])
+                else:
+                    bind_at[n.id] = pos[id(n)]
+        for nm, at in bind_at.items():
+            if first_load.get(nm, 1 << 30) < at:
+                special.add(nm)
         # only straight-line statements of the function's own body blocks
         ren = {}
+        aren = {}
+        attr_stores = {n.attr for n in ast.walk(fn) if isinstance(
+            n, ast.Attribute) and isinstance(n.ctx, (ast.Store, ast.Del))}
         for node in ast.walk(fn):
             for fld in ('body', 'orelse', 'finalbody'):
                 blk = getattr(node, fld, None)
@@ -1010,11 +1045,40 @@ def _single_aliases(tree):
                             blk.remove(st)
                             if not blk:
                                 blk.append(ast.copy_location(ast.Pass(), st))
+                    elif isinstance(st, ast.Assign) and len(
+                            st.targets) == 1 and isinstance(
+                                st.targets[0], ast.Name) and isinstance(
+                                    st.value, ast.Attribute):
+                        # b = a.x.y with a bound once and no attribute of
+                        # those names stored anywhere in the function
+                        b = st.targets[0].id
+                        chain = []
+                        root = st.value
+                        while isinstance(root, ast.Attribute):
+                            chain.append(root.attr)
+                            root = root.value
+                        if isinstance(root, ast.Name) and stores.get(
+                                b) == 1 and stores.get(root.id) == 1 and \
+                                b not in special and root.id not in special \
+                                and root.id not in ren and root.id not in \
+                                aren and not (set(chain) & attr_stores) and (
+                                    _is_inlined_name(b) or ALIAS_ALL):
+                            aren[b] = st.value
+                            blk.remove(st)
+                            if not blk:
+                                blk.append(ast.copy_location(ast.Pass(), st))
         if ren:
             for n in ast.walk(fn):
                 if isinstance(n, ast.Name) and n.id in ren and isinstance(
                         n.ctx, ast.Load):
                     n.id = ren[n.id]
+        if aren:
+            class _A(ast.NodeTransformer):
+                def visit_Name(self, n):
+                    if isinstance(n.ctx, ast.Load) and n.id in aren:
+                        return ast.copy_location(_plain_copy(aren[n.id]), n)
+                    return n
+            _A().visit(fn)
 
 
 def _leftmost_receiver(e):
